@@ -238,7 +238,8 @@ class GWCSAPIMixin(BaseHighLevelWCS, BaseLowLevelWCS):
         if value is None:
             self._pixel_shape = None
             return
-        wcs_naxes = self.input_frame.naxes
+        # (the input frame may be given by name only)
+        wcs_naxes = self.pixel_n_dim
         if len(value) != wcs_naxes:
             raise ValueError("The number of data axes, "
                              "{}, does not equal the "
